@@ -95,6 +95,7 @@ type loopFrame struct {
 	L      *Loop
 	VarAt0 string // value of the variant at the head
 	HasVar bool
+	AutoVar bool // variant supplied by the engine (map iteration)
 }
 
 type State struct {
@@ -117,6 +118,10 @@ type State struct {
 	oldHeaps  map[string]string // heaps at function entry
 	entryVals map[string]Value  // entry values of parameters by name
 	known     map[string]bool   // atoms asserted on this path (syntactic pruning of branches)
+	loopPre   map[int]map[string]Value // per loop ordinal: the named variables' values when the loop was entered
+	stops     []stopFrame              // join points at which this path hands itself over for merging
+	pcond     []string                 // branch conditions taken since the function entry (for merging)
+	skipPhi   *ssa.BasicBlock          // phis of this block were resolved before a merge
 }
 
 func (s *State) clone() *State {
@@ -152,10 +157,17 @@ func (s *State) clone() *State {
 	for k, v := range s.ghost {
 		n.ghost[k] = v
 	}
+	n.loopPre = make(map[int]map[string]Value, len(s.loopPre))
+	for k, m := range s.loopPre {
+		n.loopPre[k] = m
+	}
 	n.known = make(map[string]bool, len(s.known))
 	for k, b := range s.known {
 		n.known[k] = b
 	}
+	n.stops = append([]stopFrame(nil), s.stops...)
+	n.pcond = append([]string(nil), s.pcond...)
+	n.skipPhi = s.skipPhi
 	n.facts = append([]string(nil), s.facts...)
 	n.decls = append([]string(nil), s.decls...)
 	n.loops = append([]loopFrame(nil), s.loops...)
